@@ -393,7 +393,14 @@ func vfC16Established(t *testing.T, res *vfResult, c vfC16Case) {
 		_ = x.Conn.SetReadDeadline(time.Time{})
 		synctest.Wait()
 		x.StartPump() // the deadline ended X's pump as well
-		if rt := vfRoundTrip(p, "c16b", 10*time.Second); rt != "" {
+		rt := vfRoundTrip(p, "c16b", 10*time.Second)
+		if rt != "" && strings.Contains(rt, "never read") && rdY.Returned.Load() && rdY.Err == nil && rdY.N > 0 {
+			// Y has two readers, its pump and the monitored extra Read; which of them a payload wakes is the
+			// scheduler's choice. The payload arrived, at the reader the round trip does not look at.
+			res.Count("roundtrip_payload_taken_by_monitored_read", 1)
+			rt = ""
+		}
+		if rt != "" {
 			violate("connection-unusable-after-deadline", "after a Read deadline the connection no longer carries data: "+rt)
 		}
 	case "write-deadline-blocked":
